@@ -14,7 +14,7 @@ Hardening pass (blind-spot classes of HARDENING.md).  Every contract snapshots i
 judges the result against the snapshot, so a routine that writes into the caller's array cannot drag the oracle along.
   A repeat / aliasing   the same argument objects passed again (same routine, another routine of the property, keyword form),
                         in every memory layout (C, F, transposed view, strided slice, reversed view) and image dtype (float64,
-                        float32, int64/32/16, uint8, bool); transfer functions as list / tuple / 3-D ndarray stack of
+                        float32, int64/32/16, uint8, bool); transfer functions as list / tuple of
                         complex128 / complex64 / float64 / float32 / int64 arrays; explicit fx, fy ndarrays re-used; results the
                         caller edits in place before calling again; conv == atf([sum(h) OTF(h)]) across the three routines
   B histories           one PSF container through mtf/ptf/otf (all 9 ordered pairs) with its data reassigned / overwritten in
@@ -42,7 +42,7 @@ RULE = ('shapes enumerated smallest first (all (n0,n1) up to a bound incl. 1xN, 
         'prysm analytic FTs, mixed, all-ones, empty, linear phase) x shift convention x grid mode (from dx, explicit 1-D, '
         'explicit 2-D); a case is non-trivial when the array has >= 2 samples; distinct = distinct descriptor '
         '(shape, classes, sub-seed).  Hardening workloads: repeat (same argument objects again, x 5 memory layouts x 7 image '
-        'dtypes x 3 transfer-function containers x 5 transfer-function dtypes), histories (PSF container: 8 kinds of change x 9 '
+        'dtypes x 2 transfer-function containers x 5 transfer-function dtypes), histories (PSF container: 8 kinds of change x 9 '
         'ordered routine pairs per shape, random sequences; conv: 5 kinds; apply_transfer_functions: dx/shift/grid sequences on '
         'one shape), configuration (precision 32 with float32/float64 data, then 64 on the same grids), extreme aspect ratios')
 ASSUMPTIONS = ['origin sample of an axis of length n is index n//2 (C04 convention); the routines are FFT based so '
@@ -640,7 +640,7 @@ def _conv_laws(ctx, conv, r, shape, cls, desc, dtype='float64', layout='C'):
 def _run_conv(ctx):
     from prysm.convolution import conv
     rng = ctx.rng('c15-conv')
-    shapes = shapes_for(ctx, rng, ctx.pick(8, 16), ctx.pick(120, 10000), ctx.pick(24, 96))
+    shapes = shapes_for(ctx, rng, ctx.pick(8, 16), ctx.pick(120, 8000), ctx.pick(24, 96))
     k = -1
     with driving(ctx, wl='conv'):
         for shape in shapes:
@@ -698,7 +698,7 @@ def _grids_for(mode, shape, dx, shift):
 def _run_atf(ctx):
     from prysm.convolution import apply_transfer_functions as atf
     rng = ctx.rng('c15-atf')
-    shapes = shapes_for(ctx, rng, ctx.pick(6, 11), ctx.pick(60, 6000), ctx.pick(24, 96))
+    shapes = shapes_for(ctx, rng, ctx.pick(6, 11), ctx.pick(60, 5000), ctx.pick(24, 96))
     k = -1
     with driving(ctx, wl='atf'):
         for shape in shapes:
@@ -889,7 +889,7 @@ def _otf_laws(ctx, otf, r, shape, cls, container, dx, desc, dtype='float64', lay
 def _run_otf(ctx):
     from prysm import otf
     rng = ctx.rng('c15-otf')
-    shapes = shapes_for(ctx, rng, ctx.pick(7, 13), ctx.pick(80, 10000), ctx.pick(24, 96))
+    shapes = shapes_for(ctx, rng, ctx.pick(7, 13), ctx.pick(80, 8000), ctx.pick(24, 96))
     classes = [c for c in PSF_CLASSES if c != 'rand-signed']
     k = -1
     with driving(ctx, wl='otf'):
@@ -913,7 +913,7 @@ def _run_otf(ctx):
 
 # ------------------------------------------------------------------------------------------- class A: repeat / aliasing
 REPEAT_SHAPES_Q = [(1, 2), (2, 2), (3, 3), (3, 4), (4, 4), (5, 5), (4, 7), (7, 4), (8, 8), (9, 6), (11, 11), (12, 15), (16, 16), (17, 20)]
-TF_CONTAINERS = ['list', 'tuple', 'ndarray-stack']
+TF_CONTAINERS = ['list', 'tuple']     # the documented type is 'sequence'; a 3-D ndarray stack is not demanded
 TF_DTYPES = ['complex128', 'complex64', 'float64', 'float32', 'int64']
 
 
@@ -1009,7 +1009,7 @@ def _repeat_atf(ctx, atf, r, shape, layout, dtype, shift, desc, k):
     ts = [lay(t, layout) for t in _tf_material(r, shape, shift, tdt, n)]
     pristine = [np.array(t, dtype=complex) for t in ts]
     P = functools.reduce(lambda x, y: x * y, pristine)
-    tfs = ts if cont == 'list' else tuple(ts) if cont == 'tuple' else np.stack([np.asarray(t) for t in ts])
+    tfs = ts if cont == 'list' else tuple(ts)
     rt = rtol_for(o1, *ts)
     dx = 0.8
     omax = max(float(np.abs(o1.astype(float)).max()), float(np.abs(o2.astype(float)).max()), 1e-300)
